@@ -56,6 +56,12 @@ func runC19(c *core.Ctx) {
 	c.Rule("R3", "Put stores once; wrappers' Get allocates the class size", 3)
 	c.Rule("R4", "wrappers index by capacity; pbuffer resets before Put", 2)
 	c.Rule("R5", "bit-fill helper is the unconditional shift cascade", 1)
+	// exclusive ownership needs the library's own pool users to return each buffer once, and not while they still
+	// use it (C10)
+	c.Rule("R6", "the library's own pool users put a buffer once and stop using it (shared with C10-R1/R3/R4/R8)", 3)
+	importObligations(c, runC10, "R6", func(o *core.Obligation) bool {
+		return o.Rule == "R1" || o.Rule == "R3" || o.Rule == "R4" || o.Rule == "R8"
+	})
 
 	puts := poolInstances(p, "Put")
 	gets := poolInstances(p, "Get")
